@@ -107,10 +107,14 @@ def run_registry(acc, srv, key, target_pairs, star=False):
                 a0, a1 = rng.sample([a for a in A if rw.valid(a)], 2)
             if frozenset([a0, a1]) in rw.model:
                 continue
-            resp, rec = rw.create(a0, a1, None, [], (0, 0))
+            resp, rec = rw.create(a0, a1, None, ["owner"], (0, 0))
             if resp["r"] == "ok":
                 rw.model[frozenset([a0, a1])] = rec
                 rw.order.append(frozenset([a0, a1]))
+                if rng.random() < 0.5:
+                    # half of the pairs hold liquidity: an update must reach funded pairs as well as empty ones
+                    fr = rw.fund(rec, (rng.choice([1000, 5000]), rng.choice([1000, 7000])))
+                    acc.count("pairs_funded" if fr["r"] == "ok" else "pair_funding_failed")
             continue
         if not rw.model:
             continue
@@ -158,7 +162,7 @@ def run_registry(acc, srv, key, target_pairs, star=False):
 def run_shard(acc, prop, tier, seed, shard, nshards, **kw):
     srv = Server()
     try:
-        n = 4 if tier == "quick" else 120
+        n = 4 if tier == "quick" else 600
         for wi in range(n):
             from .. import core as _core
             if _core.skip_world(wi):
@@ -187,6 +191,7 @@ def floors(acc, tier):
     if acc.counters.get("canary_fired", 0) < 14:
         msgs.append("canary silent (%d)" % acc.counters.get("canary_fired", 0))
     _w.need(acc, msgs, "updates_ok", 300)
+    _w.need(acc, msgs, "pairs_funded", 200)
     _w.need(acc, msgs, "updates_with_more_than_10_affected", 40)
     _w.need(acc, msgs, "updates_with_more_than_30_pairs", 20)
     _w.need(acc, msgs, "updates_with_more_than_30_affected", 8)
